@@ -136,6 +136,21 @@ theorem create_wf (s : List Char) (g : Gen) (h : create s = some g)
             · exact rangeArgs_wf _ g h
             · cases h
 
+/-- what `mpt_iterator_poly` returns when it accepts -/
+theorem mkPoly_shape (d : List Char) (grid : List Rat) (g : Gen) (h : mkPoly d grid = some g) :
+    ∃ coeff, g = .poly grid coeff 0 none := by
+  unfold mkPoly at h
+  simp only [] at h
+  by_cases h1 : (polyCoeffs 128 d).1.isEmpty = true
+  · rw [if_pos h1] at h; cases h
+  · rw [if_neg h1] at h
+    generalize (if (dropSpace (polyCoeffs 128 d).2).head? = some ':'
+      then polyCoeffs ((polyCoeffs 128 d).1.length - 1) (dropSpace (polyCoeffs 128 d).2).tail
+      else ([], dropSpace (polyCoeffs 128 d).2)) = sh at h
+    by_cases h2 : (!(dropSpace sh.2).isEmpty) = true
+    · rw [if_pos h2] at h; cases h
+    · rw [if_neg h2] at h; cases h; exact ⟨_, rfl⟩
+
 /-- every generator made by `mpt_iterator_profile` satisfies the invariant -/
 theorem profile_wf (grid : List Rat) (s : List Char) (g : Gen) (h : profile grid s = some g) : g.WF := by
   unfold profile at h
@@ -160,12 +175,9 @@ theorem profile_wf (grid : List Rat) (s : List Char) (g : Gen) (h : profile grid
       · split at h
         · split at h
           · cases h
-          · unfold mkPoly at h
-            simp only [] at h
-            split at h
-            · cases h
-            · cases h
-              intro v hv; cases hv
+          · obtain ⟨coeff, e⟩ := mkPoly_shape _ _ _ h
+            subst e
+            intro v hv; cases hv
         · cases h
 
 /-! ### closed forms -/
